@@ -169,7 +169,7 @@ def modify_case(draw):
         elif k == "closed":
             m["closed"] = draw(gen.closed_strategy)
         elif k == "cosmology":
-            m["cosmology"] = draw(st.sampled_from(["Planck15", "WMAP9", "Planck18", "custom"]))
+            m["cosmology"] = draw(st.sampled_from(["Planck15", "WMAP9", "Planck18", "custom", "curved"]))
         elif k == "max_workers":
             m["max_workers"] = draw(st.sampled_from([None, 2, 8]))
         elif k == "zmin":
